@@ -6,6 +6,7 @@ instance (here: `seg:[base + disp]`, 64- or 32-bit base, ALL displacements), the
 -/
 import AsmjitVerif.Props.C01FrontLegMem
 import AsmjitVerif.Props.C01RowsMem
+import AsmjitVerif.Props.C01RowsArith
 set_option linter.constructorNameAsVariable false
 set_option linter.unusedSimpArgs false
 set_option linter.unusedVariables false
@@ -148,5 +149,97 @@ theorem front_cls_correct_lrmi_mem (e : Entry) (ch : List Entry) (hch : ch ∈ l
 theorem dispatch_lrm_mem (c : Model.X86.Ctx) (row : Row) (t0 i0 : Nat) (m : Mem) (henc : row.encoding = 0x4a ∨ row.encoding = 0x16) :
     dispatch c row 0#32 (.reg t0 i0) (.mem m) .none .none = emitX86M c row.mainOp 0#32 (r32 i0) m 0 0 := by
   rcases henc with h | h <;> simp [dispatch, h, sig3, Op.kind, Op.id]
+
+/-! ### classes X86Arith / X86Test with a memory operand and a 16 / 32 / 64-bit register -/
+
+/-- `op reg, MEM`: the class uses the `opcode + 2` direction -/
+def finalOpArithRM (e : Entry) : BitVec 32 := addArithBySize (e.mainOp + 2#32) (kindSize (e.kinds.getD 0 .none))
+
+def legCoreA (e : Entry) (op : BitVec 32) : Bool :=
+  legRuleMOk e.rule 0 ((op >>> 21) &&& 3#32).toNat && (legAgreeOk e.rule op && op &&& 0xF780FC00#32 == 0#32)
+
+theorem legCoreA_spec (e : Entry) (op : BitVec 32) (h : legCoreA e op = true) :
+    LegRuleM e.rule 0 ((op >>> 21) &&& 3#32).toNat ∧ (e.rule.modes &&& 2 != 0) = true ∧ LegAgree e.rule op ∧ op &&& 0xF780FC00#32 = 0#32 := by
+  simp only [legCoreA, Bool.and_eq_true, beq_iff_eq] at h
+  obtain ⟨hR, hA, hm⟩ := h
+  obtain ⟨R, hmode⟩ := legRuleMOk_spec _ _ _ hR
+  exact ⟨R, hmode, (legAgreeOk_spec _ _ hA).1, hm⟩
+
+def entryOkArithMrMem (e : Entry) : Bool :=
+  match e.rule.ops, e.kinds with
+  | [f0, f1], [k0, k1] =>
+    is8 k0 || !anyMemAlt f0 ||
+    ((e.enc == 0x19 || e.enc == 0x3D) && (legCoreA e (finalOpArith e) && (kindSize k0 == kindSize k1 &&
+    (f0.role == .rm && (f1.role == .reg && (plainKind k1 && (noFix f1 && formOpMatches e.rule.oszEff f1 (.reg k1 0))))))))
+  | _, _ => false
+
+def entryOkArithRmMem (e : Entry) : Bool :=
+  match e.rule.ops, e.kinds with
+  | [f0, f1], [k0, _] =>
+    is8 k0 || !anyMemAlt f1 ||
+    (e.enc == 0x19 && (legCoreA e (finalOpArithRM e) &&
+    (f0.role == .reg && (f1.role == .rm && (plainKind k0 && (noFix f0 && formOpMatches e.rule.oszEff f0 (.reg k0 0)))))))
+  | _, _ => false
+
+theorem arith_mr_mem_entries_ok : larithChunks.all (fun c => c.all entryOkArithMrMem) = true := by decide +kernel
+theorem arith_rm_mem_entries_ok : larithrmChunks.all (fun c => c.all entryOkArithRmMem) = true := by decide +kernel
+
+/-- **front_cls_correct, classes X86Arith / X86Test, `op MEM, reg`** (16 / 32 / 64-bit registers) -/
+theorem front_cls_correct_arith_mr_mem (e : Entry) (ch : List Entry) (hch : ch ∈ larithChunks) (he : e ∈ ch)
+    (c : Model.X86.Ctx) (ctx : Spec.X86.Ctx) (r0 xb : BitVec 32) (size : Nat) (m : Mem) (mo : MemOp) (pfx : List (BitVec 8))
+    (mb : BitVec 32 → BitVec 8) (sib : Option (BitVec 8)) (ds : List (BitVec 8))
+    (AF : AddrFormL c ctx m mo pfx xb mb sib ds) (hsize : mo.size = size) (hm64 : ctx.mode64 = true) (h0 : r0 < 16#32)
+    (hsz : ∀ f0, e.rule.ops[0]? = some f0 → hasMemAlt f0 size = true)
+    (h8 : ∀ k0 k1, e.kinds = [k0, k1] → is8 k0 = false) :
+    ∃ bytes k0 k1, e.kinds = [k0, k1] ∧ emitX86M c (finalOpArith e) 0#32 r0 m 0 0 = .ok bytes ∧
+      formOk ctx e.rule [.mem mo, .reg k1 r0.toNat] {} bytes = true := by
+  have hok := mem_chunks_ok arith_mr_mem_entries_ok e ch hch he
+  unfold entryOkArithMrMem at hok
+  split at hok
+  · rename_i f0 f1 k0 k1 hops hkinds
+    have hm0 : hasMemAlt f0 size = true := hsz f0 (by rw [hops]; rfl)
+    simp only [h8 k0 k1 hkinds, hasMemAlt_any f0 size hm0, Bool.not_true, Bool.false_or, Bool.or_self, Bool.and_eq_true, Bool.or_eq_true, beq_iff_eq] at hok
+    obtain ⟨-, hC, -, ra, rb, p1, n1, m1⟩ := hok
+    obtain ⟨R, hmode, A, hmask⟩ := legCoreA_spec _ _ hC
+    have hal : alignOps e.rule.oszEff e.rule.ops [.mem mo, .reg k1 r0.toNat] = some [(f0, some (.mem mo)), (f1, some (.reg k1 r0.toNat))] := by
+      rw [hops]
+      exact alignOps2 _ _ _ _ _ (hasMemAlt_matches _ _ _ _ hm0 hsize AF.hvsib) (by rw [formOpMatches_reg_nofix _ _ _ _ n1]; exact m1)
+    obtain ⟨bytes, hb, hf⟩ := legM_mr_formOk c ctx e.rule (finalOpArith e) r0 xb m mo pfx mb sib ds AF k1 f0 f1 hm64 hmode hmask h0
+      (plainKind_spec _ p1) R A ra rb hal
+    exact ⟨bytes, k0, k1, hkinds, hb, hf⟩
+  · simp at hok
+
+/-- **front_cls_correct, class X86Arith, `op reg, MEM`** (16 / 32 / 64-bit registers; the `opcode + 2` direction) -/
+theorem front_cls_correct_arith_rm_mem (e : Entry) (ch : List Entry) (hch : ch ∈ larithrmChunks) (he : e ∈ ch)
+    (c : Model.X86.Ctx) (ctx : Spec.X86.Ctx) (r0 xb : BitVec 32) (size : Nat) (m : Mem) (mo : MemOp) (pfx : List (BitVec 8))
+    (mb : BitVec 32 → BitVec 8) (sib : Option (BitVec 8)) (ds : List (BitVec 8))
+    (AF : AddrFormL c ctx m mo pfx xb mb sib ds) (hsize : mo.size = size) (hm64 : ctx.mode64 = true) (h0 : r0 < 16#32)
+    (hsz : ∀ f1, e.rule.ops[1]? = some f1 → hasMemAlt f1 size = true)
+    (h8 : ∀ k0 k1, e.kinds = [k0, k1] → is8 k0 = false) :
+    ∃ bytes k0 k1, e.kinds = [k0, k1] ∧ emitX86M c (finalOpArithRM e) 0#32 r0 m 0 0 = .ok bytes ∧
+      formOk ctx e.rule [.reg k0 r0.toNat, .mem mo] {} bytes = true := by
+  have hok := mem_chunks_ok arith_rm_mem_entries_ok e ch hch he
+  unfold entryOkArithRmMem at hok
+  split at hok
+  · rename_i f0 f1 k0 k1 hops hkinds
+    have hm1 : hasMemAlt f1 size = true := hsz f1 (by rw [hops]; rfl)
+    simp only [h8 k0 k1 hkinds, hasMemAlt_any f1 size hm1, Bool.not_true, Bool.false_or, Bool.or_self, Bool.and_eq_true, Bool.or_eq_true, beq_iff_eq] at hok
+    obtain ⟨-, hC, ra, rb, p0, n0, m0⟩ := hok
+    obtain ⟨R, hmode, A, hmask⟩ := legCoreA_spec _ _ hC
+    have hal : alignOps e.rule.oszEff e.rule.ops [.reg k0 r0.toNat, .mem mo] = some [(f0, some (.reg k0 r0.toNat)), (f1, some (.mem mo))] := by
+      rw [hops]
+      exact alignOps2 _ _ _ _ _ (by rw [formOpMatches_reg_nofix _ _ _ _ n0]; exact m0) (hasMemAlt_matches _ _ _ _ hm1 hsize AF.hvsib)
+    obtain ⟨bytes, hb, hf⟩ := legM_rm_formOk c ctx e.rule (finalOpArithRM e) r0 xb m mo pfx mb sib ds AF k0 f0 f1 hm64 hmode hmask h0
+      (plainKind_spec _ p0) R A ra rb hal
+    exact ⟨bytes, k0, k1, hkinds, hb, hf⟩
+  · simp at hok
+
+/-- the class switch reaches `EmitX86M` with exactly these arguments -/
+theorem dispatch_arith_mem (c : Model.X86.Ctx) (row : Row) (k : RegKind) (i : Nat) (m : Mem) (henc : row.encoding = 0x19)
+    (hk : k = .gpw ∨ k = .gpd ∨ k = .gpq) :
+    dispatch c row 0#32 (.mem m) (.reg (rtypeOf k) i) .none .none = emitX86M c (addArithBySize row.mainOp (kindSize k)) 0#32 (r32 i) m 0 0 ∧
+    dispatch c row 0#32 (.reg (rtypeOf k) i) (.mem m) .none .none = emitX86M c (addArithBySize (row.mainOp + 2#32) (kindSize k)) 0#32 (r32 i) m 0 0 := by
+  rcases hk with h | h | h <;> subst h <;> constructor <;>
+    simp [dispatch, henc, sig3, Op.kind, Op.id, Op.rmSize, rtypeOf, kindSize]
 
 end AsmjitVerif.Props.C01
